@@ -216,4 +216,4 @@ def run_shard(ctx):
     quick = ctx.tier == "quick"
     ctx.drive("rule", gen.run_case(names=["SOO", "StoSOO", "DOO"], laws=LAWS, n_range=(100, 300) if quick else (100, 1500),
                                    script_prob=0.25, full_T_prob=0.4, T_min=3),
-              check_case, ctx.budget(2400, 40000))
+              check_case, ctx.budget(10000, 60000))
